@@ -20,6 +20,44 @@ import (
 // and List aggregation, for shard sets mixing simple and compound shards and repositories split
 // over two shards.
 
+// c18Partial: a compound shard of which a filter selects only SOME repositories, ranking before
+// (and in other corpora after) a simple shard the filter selects completely.
+func c18Partial(rng interface{ Intn(int) int }, id int) *corpus.Corpus {
+	c := &corpus.Corpus{ID: id}
+	first, last := "aaa", "zzz"
+	if rng.Intn(2) == 0 {
+		first, last = "zzz", "aaa"
+	}
+	c.Repos = []corpus.Repo{
+		{Name: first + "/x", ID: 71, Branches: []string{"HEAD"}, Shard: 0, Meta: map[string]string{"license": "MIT"}},
+		{Name: first + "/y", ID: 72, Branches: []string{"HEAD"}, Shard: 0, Meta: map[string]string{"license": "Apache"}},
+		{Name: last + "/q", ID: 73, Branches: []string{"HEAD"}, Shard: 1, Meta: map[string]string{"license": "MIT"}},
+	}
+	for ri := range c.Repos {
+		for k := 0; k < 2; k++ {
+			c.Docs = append(c.Docs, corpus.Doc{Repo: ri, Name: fmt.Sprintf("f%d_%d.go", ri, k), Content: []string{"hello world", "abc hello"}[k], Lang: "Go", Branches: []int{0}})
+		}
+	}
+	return c
+}
+
+func c18PartialQueries(c *corpus.Corpus) []*corpus.Q {
+	hello := func() *corpus.Q { return &corpus.Q{T: "substr", Pat: "hello", CT: true} }
+	sel := []*corpus.Q{
+		{T: "reposet", Names: []string{c.Repos[0].Name, c.Repos[2].Name}},
+		{T: "repoids", IDs: []uint32{71, 73}},
+		{T: "branchesrepos", BR: []corpus.BranchIDs{{Branch: "HEAD", IDs: []uint32{71, 73}}}},
+		{T: "repo", Pat: "/x$|/q$"},
+		{T: "meta", S: "license", Pat: "MIT"},
+	}
+	var qs []*corpus.Q
+	for _, f := range sel {
+		qs = append(qs, f, &corpus.Q{T: "and", Sub: []*corpus.Q{f, hello()}},
+			&corpus.Q{T: "type", S: "repo", Sub: []*corpus.Q{{T: "and", Sub: []*corpus.Q{f, hello()}}}})
+	}
+	return qs
+}
+
 func c18Corpus(rng interface{ Intn(int) int }, id int, r *verifkit.M) *corpus.Corpus {
 	c := &corpus.Corpus{ID: id}
 	names := []string{"repo/a", "repo/b", "org/abc", "foo/bar"}
@@ -146,6 +184,10 @@ func TestVerif_C18_Select(t *testing.T) {
 	for ci := 0; ci < ncorp; ci++ {
 		rng := verifkit.Rng(int64(18000 + ci))
 		c := c18Corpus(rng, ci+1, nil)
+		partial := ci%5 == 0
+		if partial {
+			c = c18Partial(rng, ci+1)
+		}
 		dir, err := os.MkdirTemp(os.Getenv("VERIF_WORK"), "c18")
 		if err != nil {
 			t.Fatal(err)
@@ -185,7 +227,11 @@ func TestVerif_C18_Select(t *testing.T) {
 			}
 			return -1
 		}
-		for _, q := range c18Queries(rng, c) {
+		queries := c18Queries(rng, c)
+		if partial {
+			queries = c18PartialQueries(c)
+		}
+		for _, q := range queries {
 			zq := q.Zoekt()
 			// 1. the reply of the sharded searcher (through typeRepoSearcher): union of the per-shard answers
 			var res *zoekt.SearchResult
